@@ -282,6 +282,91 @@ def check_marker(ctx, F):
     return ctx.ok('R4', role, imp.defpath, 'marker = 1 << (BITS - 1 - leading_zeros(last)); word = last ^ marker; mask = marker >> 1; export seals with write_bit(true)', key=key)
 
 
+def _fold3(t):
+    """constant folding over the three word constants 0, 1, all-ones (enough to evaluate a mask expression at mask == 0)."""
+    Z, O, A = ('k', 'zero', 'W'), ('k', 'one', 'W'), ('k', 'all_ones', 'W')
+
+    def norm(x):
+        if isinstance(x, tuple) and x and x[0] == 'k' and x[1] in ('zero', 'one', 'all_ones', 'max_value'):
+            return (Z if x[1] == 'zero' else O if x[1] == 'one' else A)
+        if x == ('int', 0):
+            return Z
+        return x
+
+    def f(n):
+        if not n:
+            return None
+        n = norm(n)
+        if n[0] == 'bin':
+            a, b = norm(n[2]), norm(n[3])
+            op = n[1]
+            if op in ('Sub.w',) or (op == 'call-wrapping_sub'):
+                if a == Z and b == O:
+                    return A
+                if b == Z:
+                    return a
+            if op == 'BitAnd':
+                if Z in (a, b):
+                    return Z
+                if a == A:
+                    return b
+                if b == A:
+                    return a
+            if op == 'BitOr':
+                if a == Z:
+                    return b
+                if b == Z:
+                    return a
+            if op in ('Eq',) and a in (Z, O, A) and b in (Z, O, A):
+                return ('int', int(a == b))
+            if op in ('Ne',) and a in (Z, O, A) and b in (Z, O, A):
+                return ('int', int(a != b))
+        if n[0] == 'un' and n[1] == 'Not':
+            a = norm(n[2])
+            if a == Z:
+                return A
+            if a == A:
+                return Z
+        if n[0] == 'call' and isinstance(n[1], str) and len(n[2]) == 2:
+            a, b = norm(n[2][0]), norm(n[2][1])
+            if n[1].endswith('::saturating_sub') and a == Z:
+                return Z
+            if n[1].endswith('::wrapping_sub') and a == Z and b == O:
+                return A
+        return n if n is not None else None
+    return effects.rebuild(t, f)
+
+
+def check_queue_exhaustion(ctx, F):
+    """QueueDecoder: when the buffered word is fully consumed (mask_next_to_read == 0) `current_word` is stale (the struct
+    documents it as meaningless); maybe_exhausted() must then be decided by the backend alone.  The decision predicates are
+    evaluated at mask == 0 by constant folding over {0, 1, all-ones} and must not mention current_word any more."""
+    key = 'R3/queue-exhaustion/' + QD
+    role = 'with the buffered word fully consumed, maybe_exhausted() does not look at the stale current_word'
+    b = body_of(F, QD, 'maybe_exhausted')
+    if b is None:
+        return ctx.unresolved('R3', role, QD, 'maybe_exhausted not found', key=key)
+    ev, paths = rules.evaluate(b)
+    ctx.touch(b)
+    mask = _mask_in('mask_next_to_read')
+    cw = ('in', (1, 'deref', ('f', 'current_word')))
+    n = 0
+    for r in paths or []:
+        if r.end != 'return':
+            continue
+        for t, v, _ in r.preds:
+            if not sym.contains(t, lambda x: x == mask):
+                continue
+            n += 1
+            folded = _fold3(sym.subst(t, {mask: ('k', 'zero', 'W')}))
+            if sym.contains(folded, lambda x: x == cw):
+                return ctx.bad('R3', role, b.defpath, 'at mask_next_to_read == 0 the test `%s` becomes `%s`: it still reads current_word, which holds the bits of the word that was already consumed, so a decoder that has read '
+                               'every bit of a stream ending in a non-zero word denies being exhausted' % (sym.show(t)[:110], sym.show(folded)[:80]), key=key, loc=rules.loc(b))
+    if not n:
+        return ctx.unresolved('R3', role, b.defpath, 'no decision mentions the mask', key=key)
+    return ctx.ok('R3', role, b.defpath, '%d mask-dependent decision(s); each folds to a constant at mask == 0' % n, key=key)
+
+
 def check_write_clones(ctx, F, wq, ws):
     key = 'R4/write-clones/' + SC
     role = 'queue and stack write_bit are the same function'
@@ -317,6 +402,7 @@ def run(ctx):
         check_read(ctx, F, rq, 'queue', 'mask_next_to_read', +1, (0, 0), (0, 1))
     check_len(ctx, F)
     check_marker(ctx, F)
+    check_queue_exhaustion(ctx, F)
     c18.check_bit_coder_sentinel(ctx, F)
     c08.check_bit_guards(ctx, F)
     ctx.assume('the mask holds at most one set bit (established by the constructors, which store zero, and preserved by the step functions, which store 1, mask << 1, mask >> 1 or 1 << (BITS-1))')
